@@ -3,6 +3,7 @@ package centrifuge
 import (
 	"context"
 	"encoding/json"
+	"runtime"
 	"io"
 	"math/rand"
 	"sort"
@@ -32,6 +33,14 @@ type c28Conn struct {
 	Labels map[string]string `json:"labels,omitempty"`
 	Closed bool              `json:"closed,omitempty"`
 	Chans  []c28Chan         `json:"chans"`
+	// client-side subscribe attempts whose OnSubscribe callback is parked by the driver when
+	// Node.Unsubscribe is called and answered (OK or rejected) while the call is waiting
+	Inflight []c28Attempt `json:"inflight,omitempty"`
+}
+
+type c28Attempt struct {
+	Chan c28Chan `json:"chan"`
+	OK   bool    `json:"ok"`
 }
 
 type c28Target struct {
@@ -178,6 +187,13 @@ func c28GenConn(r *rand.Rand) c28Conn {
 	if r.Intn(12) == 0 {
 		c.Closed = true
 	}
+	if !c.Uni && !c.Closed && r.Intn(4) == 0 {
+		m := 1 + r.Intn(2)
+		for k := n; k < n+m && k < len(perm); k++ {
+			c.Inflight = append(c.Inflight, c28Attempt{Chan: c28Chan{Name: c28Pool[perm[k]], Presence: r.Intn(3) == 0,
+				JoinLeave: r.Intn(3) == 0}, OK: r.Intn(3) != 0})
+		}
+	}
 	return c
 }
 
@@ -304,6 +320,8 @@ func c28Run(t *testing.T, in c28Input) (obs [][]c28ObsConn, evs []c28Event, lfm 
 	cluster := &c28Cluster{}
 	chanSpec := map[string]c28Chan{} // key clientID + "/" + channel
 	labels := map[string]map[string]string{}
+	parkSpec := map[string]c28Attempt{}
+	var parked []func()
 	var specMu sync.Mutex
 	var nodes []*Node
 	for range in.Nodes {
@@ -327,8 +345,22 @@ func c28Run(t *testing.T, in c28Input) (obs [][]c28ObsConn, evs []c28Event, lfm 
 			client.OnSubscribe(func(e SubscribeEvent, cb SubscribeCallback) {
 				specMu.Lock()
 				cs := chanSpec[client.ID()+"/"+e.Channel]
+				att, parkIt := parkSpec[client.ID()+"/"+e.Channel]
 				specMu.Unlock()
-				cb(SubscribeReply{Options: SubscribeOptions{EmitPresence: cs.Presence, EmitJoinLeave: cs.JoinLeave}}, nil)
+				answer := func() {
+					if parkIt && !att.OK {
+						cb(SubscribeReply{}, ErrorPermissionDenied)
+						return
+					}
+					cb(SubscribeReply{Options: SubscribeOptions{EmitPresence: cs.Presence, EmitJoinLeave: cs.JoinLeave}}, nil)
+				}
+				if parkIt {
+					specMu.Lock()
+					parked = append(parked, answer)
+					specMu.Unlock()
+					return
+				}
+				answer()
 			})
 			client.OnUnsubscribe(func(e UnsubscribeEvent) {
 				log.add("callback", client.ID(), e.Channel, e.ServerSide, e.Unsubscribe.Code)
@@ -381,6 +413,16 @@ func c28Run(t *testing.T, in c28Input) (obs [][]c28ObsConn, evs []c28Event, lfm 
 			}
 			if cs.Closed {
 				_ = client.close(DisconnectForceNoReconnect)
+			}
+			for k, at := range cs.Inflight {
+				specMu.Lock()
+				chanSpec[client.ID()+"/"+at.Chan.Name] = at.Chan
+				parkSpec[client.ID()+"/"+at.Chan.Name] = at
+				specMu.Unlock()
+				rw := testReplyWriterWrapper()
+				if err := client.handleSubscribe(&protocol.SubscribeRequest{Channel: at.Chan.Name}, &protocol.Command{Id: uint32(100 + k)}, time.Now(), rw.rw); err != nil {
+					t.Fatalf("in-flight subscribe: %v", err)
+				}
 			}
 		}
 		live = append(live, row)
@@ -435,8 +477,30 @@ func c28Run(t *testing.T, in c28Input) (obs [][]c28ObsConn, evs []c28Event, lfm 
 		opts = append(opts, WithCustomUnsubscribe(Unsubscribe{Code: 2500, Reason: "custom"}))
 		code = 2500
 	}
-	if err := nodes[0].Unsubscribe(tg.User, tg.Channel, opts...); err != nil {
-		t.Fatalf("Node.Unsubscribe: %v", err)
+	if len(parked) == 0 {
+		if err := nodes[0].Unsubscribe(tg.User, tg.Channel, opts...); err != nil {
+			t.Fatalf("Node.Unsubscribe: %v", err)
+		}
+	} else {
+		// the call takes its snapshot of each connection's channels and then waits on the subscribing
+		// gates of the attempts in flight; the application answers them while it waits
+		done := make(chan error, 1)
+		go func() { done <- nodes[0].Unsubscribe(tg.User, tg.Channel, opts...) }()
+		for k := 0; k < 20; k++ {
+			runtime.Gosched()
+		}
+		time.Sleep(3 * time.Millisecond)
+		for _, answer := range parked {
+			answer()
+		}
+		select {
+		case err := <-done:
+			if err != nil {
+				t.Fatalf("Node.Unsubscribe: %v", err)
+			}
+		case <-time.After(20 * time.Second):
+			t.Fatalf("Node.Unsubscribe did not return after the in-flight subscribes were answered")
+		}
 	}
 
 	for _, lv := range flat {
@@ -476,6 +540,10 @@ func c28Run(t *testing.T, in c28Input) (obs [][]c28ObsConn, evs []c28Event, lfm 
 			for _, ch := range lv.spec.Chans {
 				order = append(order, ch.Name)
 				seen[ch.Name] = true
+			}
+			for _, at := range lv.spec.Inflight {
+				order = append(order, at.Chan.Name)
+				seen[at.Chan.Name] = true
 			}
 			var extra []string
 			for ch := range held {
@@ -525,8 +593,12 @@ func c28Run(t *testing.T, in c28Input) (obs [][]c28ObsConn, evs []c28Event, lfm 
 			if lv.client.sessionID() != "" {
 				sess = uint64(k)
 			}
+			var ats []string
+			for _, at := range lv.spec.Inflight {
+				ats = append(ats, vPair(vApp("mkChan", vN(c28ChanN(at.Chan.Name)), "false", vBool(at.Chan.Presence), vBool(at.Chan.JoinLeave)), vBool(at.OK)))
+			}
 			cts = append(cts, vApp("mkConn", vN(uint64(k)), vN(c28UserN(lv.spec.User)), vN(sess),
-				vBool(lfm[ni][ci]), vBool(lv.spec.Closed), vList(chs)))
+				vBool(lfm[ni][ci]), vBool(lv.spec.Closed), vList(chs), vList(ats)))
 			var a, b []string
 			for _, ch := range obs[ni][ci].Chans {
 				a = append(a, vN(c28ChanN(ch)))
@@ -578,6 +650,10 @@ func TestVerifC28(t *testing.T) {
 		{Nodes: [][]c28Conn{{one("u1")}}, Target: c28Target{User: "u1"}},                               // no subscriptions
 		{Nodes: [][]c28Conn{{one("u1", a, b)}}, Target: c28Target{User: "u1", Channel: "a"}},          // single channel
 		{Nodes: [][]c28Conn{{one("u1", a)}}, Target: c28Target{User: "u1", Channel: "zz"}},            // not subscribed: push only
+		{Nodes: [][]c28Conn{{{User: "u1", Inflight: []c28Attempt{{Chan: a, OK: true}}}}}, Target: c28Target{User: "u1"}}, // attempt in flight, accepted
+		{Nodes: [][]c28Conn{{{User: "u1", Chans: []c28Chan{a}, Inflight: []c28Attempt{{Chan: b, OK: true}, {Chan: c28Chan{Name: "c"}, OK: false}}}}}, Target: c28Target{User: "u1"}},
+		{Nodes: [][]c28Conn{{one("u1", a)}, {{User: "u1", Inflight: []c28Attempt{{Chan: b, OK: true}}}}}, Target: c28Target{User: "u1"}}, // in flight on the remote node
+		{Nodes: [][]c28Conn{{{User: "u2", Inflight: []c28Attempt{{Chan: a, OK: true}}}, one("u1", a)}}, Target: c28Target{User: "u1"}},       // in flight on a non-matching connection
 	}
 	for i := 0; i < w.N; i++ {
 		if !w.Want(i) {
@@ -594,6 +670,13 @@ func TestVerifC28(t *testing.T) {
 		if in.Target.Channel != "" {
 			class = "single-channel"
 		}
+		for _, row := range in.Nodes {
+			for _, c := range row {
+				if len(c.Inflight) > 0 && !strings.Contains(class, "/inflight") {
+					class += "/inflight"
+				}
+			}
+		}
 		if len(in.Nodes) > 1 {
 			class += "/cluster"
 		} else {
@@ -603,7 +686,7 @@ func TestVerifC28(t *testing.T) {
 		for _, row := range in.Nodes {
 			for _, c := range row {
 				if !c.Closed {
-					subs += len(c.Chans)
+					subs += len(c.Chans) + len(c.Inflight)
 				}
 			}
 		}
